@@ -391,6 +391,23 @@ def _c09_worker(case):
                     text = sorted(canon_rule(t, idx) for t in CaptureControl.programs[-1].text)
                     checks.append(("program", desc, m.add(f"deadprog {R} {ensure} {';'.join(avoid) or '-'}"), "|".join(text), None))
                 checks.append(("redfix", desc, m.add(f"redfix {R} {ensure} {';'.join(avoid) or '-'}"), [sp2s(x, nm) for x in res], limit))
+            # one explicit source list OBJECT handed to several consecutive calls (a caller keeping its list): every call is judged against
+            # the contents the caller designated.  Separate generator, so the streams above are unchanged.
+            rng3 = random.Random(case["seed"] ^ 0x9C09)
+            designated = [v for v in nm if rng3.random() < 0.5]
+            shared = list(designated)
+            for j in range(4):
+                pb = "max" if j == 3 else rng3.choice(["min", "max", "fix", "max"])
+                ensure = rand_space(rng3, n, 0.0 if j == 3 else rng3.choice([0.2, 0.5]))
+                if pb == "max" and "*" not in ensure:
+                    ensure = "*" + ensure[1:]
+                CaptureControl.programs.clear()
+                res = TC.trappist(sd.petri_net, problem=pb, ensure_subspace=s2sp(ensure, nm), optimize_source_variables=shared)
+                desc = f"call {j + 1} of 4 re-using one source list object {[idx[v] for v in designated]}: trappist(problem={pb}, ensure={ensure})"
+                eff_srcs = sorted(idx[v] for v in designated)
+                text = sorted(canon_rule(t, idx) for t in CaptureControl.programs[-1].text)
+                checks.append(("program", desc, m.add(f"trapprog {pb} 0 {ensure} - {','.join(map(str, eff_srcs)) or '-'}"), "|".join(text), None))
+                checks.append(("answers", desc, m.add(f"traps {ensure}"), [sp2s(x, nm) for x in res], (pb, False, ensure, [], eff_srcs, None)))
         finally:
             TC.Control = CaptureControl._orig
         out = m.run()
@@ -441,5 +458,5 @@ def run_C09(tier, seed):
                          **({"theorem_or_correspondence": "PetriNet.trap_program / deadlock_program vs the text sent to clingo"} if kind == "program" else {})})
     good = [w for w in ws if not w.get("error")]
     return {"evaluations": n, "distinct_nontrivial": len({case_hash(w["case"]) for w in good if w["n"] >= 3}),
-            "rule": "random/modular networks; random calls of trappist (min/max/fix x reverse_time x enclosing subspace x avoided subspaces x source list (auto/none/explicit) x solution_limit in {None,0,1,2}) and of compute_fixed_point_reduced_STG (retained set, ensure, avoid incl. empty avoid space, limit); (i) the program text sent to clingo.Control.add is compared rule-by-rule with the model program generated from the real net, (ii) the answers are compared with the trap spaces / reduced fixed points enumerated by the extracted twins (prefix semantics under a limit); evaluations = number of checks",
+            "rule": "random/modular networks; random calls of trappist (min/max/fix x reverse_time x enclosing subspace x avoided subspaces x source list (auto/none/explicit) x solution_limit in {None,0,1,2}; plus four consecutive calls re-using one explicit source list object, each judged against the designated contents) and of compute_fixed_point_reduced_STG (retained set, ensure, avoid incl. empty avoid space, limit); (i) the program text sent to clingo.Control.add is compared rule-by-rule with the model program generated from the real net, (ii) the answers are compared with the trap spaces / reduced fixed points enumerated by the extracted twins (prefix semantics under a limit); evaluations = number of checks",
             "samples": [{"rules": w["case"]["rules"], "checks": w["checks"]} for w in good[:3]], "violations": viol, "extra": {"networks": len(cases)}}
